@@ -50,7 +50,8 @@ class ValidatorBind:
         return dict_eq(result.arguments, bound_arguments(signature, params))
 
     def ensures_on_ValidationError(self, signature, params, exc):
-        return tlen() == old(tlen())
+        # nothing ran; the description handed to the caller is a string
+        return tlen() == old(tlen()) and isinstance(exc.args, tuple) and len(exc.args) == 1 and isinstance(exc.args[0], str)
 
 
 @contract('pjrpc.server.validators.base:BaseValidator.validate_method', props=['C04', 'C14'])
@@ -64,7 +65,7 @@ class ValidateMethod:
     cross_check = False
 
     def ensures_on_ValidationError(self, method, params, exclude, kwargs, exc):
-        return tlen() == old(tlen())
+        return tlen() == old(tlen()) and isinstance(exc.args, tuple) and len(exc.args) == 1 and isinstance(exc.args[0], str)
 
     def returns_iff(self, method, params, exclude, kwargs):
         return sig_binds(filtered_sig(self, method, exclude), params)
@@ -131,3 +132,41 @@ class MethodBindProved:
             # the context always comes from the server: injected after binding, it overrides anything bound
             return same(member(k, self.context), context) and dict_eq_except(k, b, self.context)
         return dict_eq(k, b)
+
+
+# ------------------------------------------------------------------------------------------------ C14 (jsonschema validator)
+from spec.prims import schema_ok
+
+
+@contract('pjrpc.server.validators.jsonschema:JsonSchemaValidator.validate_method', props=['C14'])
+class JsonSchemaValidate:
+    """C14 for the schema validator: a call is accepted iff its params bind to the signature (C04) AND the bound
+    arguments satisfy the schema; otherwise ValidationError carrying a string (-> -32602, body not run); accepted
+    arguments reach the method unchanged; excluded parameters are not among them.
+    jsonschema.validate is ASSUMED: it raises jsonschema.ValidationError exactly when the uninterpreted
+    schema_ok(instance, keyword arguments) fails, has no effect, and raises nothing else (a malformed schema -
+    SchemaError - is a configuration error outside the property)."""
+    types = {'self': '=pjrpc.server.validators.jsonschema:JsonSchemaValidator', 'params': 'opt:list|dict', 'exclude': '=tuple',
+             'kwargs': '=dict'}
+    raises_only = ('pjrpc.server.validators.base:ValidationError',)
+    result_type = '=dict'
+    result_fresh = True
+    modifies = ()
+    cross_check = False
+
+    def requires_config(self, method, params, exclude, kwargs):
+        return isinstance(self.default_kwargs, dict)
+
+    def raises_ValidationError_iff(self, method, params, exclude, kwargs):
+        sig = filtered_sig(self, method, exclude)
+        if not sig_binds(sig, params):
+            return True
+        return not schema_ok(bound_arguments(sig, params), self.default_kwargs, kwargs)
+
+    def ensures_arguments(self, method, params, exclude, kwargs, result):
+        # accepted arguments reach the method unchanged
+        return dict_eq(result, bound_arguments(filtered_sig(self, method, exclude), params))
+
+    def ensures_on_ValidationError(self, method, params, exclude, kwargs, exc):
+        # the description the caller gets is a string (JSON-encodable)
+        return tlen() == old(tlen()) and isinstance(exc.args, tuple) and len(exc.args) == 1 and isinstance(exc.args[0], str)
